@@ -487,6 +487,27 @@ Theorem C02_method_copy_module : forall c p,
 Proof. exact genm_copy_module_ok. Qed.
 Print Assumptions C02_method_copy_module.
 
+(* __init__ on the freshly allocated object: ValueError before anything is set when
+   max_size <= 0; TypeError after counters and linked list are set when on_miss is not
+   callable; otherwise the model's initial cache (values assigned in order) *)
+Theorem C02_method_init_pairs : forall c ok init,
+  genm_present = true ->
+  call_method c genm_init (params 0 MNone (MBool ok) (MSeq init) MNone) raw_object = init_result c ok init.
+Proof. exact genm_init_pairs_ok. Qed.
+Print Assumptions C02_method_init_pairs.
+
+Theorem C02_method_init_mapping : forall c ok init,
+  genm_present = true ->
+  call_method c genm_init (params 0 MNone (MBool ok) (MMap init) MNone) raw_object = init_result c ok init.
+Proof. exact genm_init_mapping_ok. Qed.
+Print Assumptions C02_method_init_mapping.
+
+Theorem C02_method_init_none : forall c ok,
+  genm_present = true ->
+  call_method c genm_init (params 0 MNone (MBool ok) MNone MNone) raw_object = init_result c ok [].
+Proof. exact genm_init_none_ok. Qed.
+Print Assumptions C02_method_init_none.
+
 (* ---- counters and recency over whole heaps (copies, update between caches), both levels ------------- *)
 (* run_logs / run_counts (Proofs/C02_HeapThms.v) keep, from outside, one use log and one
    triple of lookup counts per cache of the heap: an operation on cache i appends
